@@ -116,29 +116,33 @@ mod c11 {
 hist_kmax = 6
 
 
-def skeletons(k, events):
+def skeletons(k, events, max_sets=None):
     out = []
     for kind in range(3):
         for seq in itertools.product(events, repeat=k):
             if seq[0] >= 3:
                 continue        # a leading set() is the same as a different initial command
+            if max_sets is not None and sum(1 for e in seq if e >= 3) > max_sets:
+                continue
             pad = (9,) * (hist_kmax - k)
-            out.append((k, kind) + seq + pad + (1 if 3 in seq else 0,))
+            # histories that set the current command again (3) or another value of the same kind (4) use concrete,
+            # pairwise different command values, so that rrtk's `command != self.command` is decided during symex
+            out.append((k, kind) + seq + pad + (1 if (3 in seq or 4 in seq) else 0,))
     return out
 
 
 def spec(ctx):
     if ctx.quick:
-        k, events = 3, (0, 1, 2, 3, 5)
+        k, events, max_sets = 3, (0, 1, 2, 3, 4, 5), 1
     else:
-        k, events = 4, (0, 1, 2, 3, 4, 5)
-    sks = skeletons(k, events)
+        k, events, max_sets = 4, (0, 1, 2, 3, 4, 5), 2
+    sks = skeletons(k, events, max_sets)
     hs = [Harness("c11_command_pid", "e2", unwind=9, skeletons=sks,
                   clause="every sequence of %d events from %s x 3 initial command kinds; output after every event" % (k, list(events)))]
     return {
         "crates": [{"rust": RUST, "harnesses": hs}],
         "functions": ["CommandPID::{new, update, get, set/impl_set, reset}", "PositionDerivativeDependentPIDKValues::evaluate", "State::get_value"],
-        "bounds": {"events per history": k, "event alphabet": "0 sample, 1 absent, 2 error, 3 set(current command), 4 set(same kind, any value), 5 set(next kind, any value); used: %s" % list(events),
+        "bounds": {"events per history": k, "event alphabet": "0 sample, 1 absent, 2 error, 3 set(current command), 4 set(same kind, other value), 5 set(next kind, any value); at most %d set event(s) per history, none leading" % max_sets,
                    "values": "9 gains, command values, state samples: all f32; timestamps |t| < 2^60"},
         "skeleton_space": {"histories": len(sks)},
         "assumptions": ["command equality is Rust's == on Command (a NaN command is different from itself, in rrtk and in the spec alike)"],
